@@ -213,30 +213,41 @@ def strip_meta(ans):
 
 
 def run_binary(binary, lines, timeout):
-    p = subprocess.run([binary], input="\n".join(lines) + "\n", stdout=subprocess.PIPE, stderr=subprocess.PIPE,
-                       text=True, timeout=timeout, env=ENV)
+    try:
+        p = subprocess.run([binary], input="\n".join(lines) + "\n", stdout=subprocess.PIPE, stderr=subprocess.PIPE,
+                           text=True, timeout=timeout, env=ENV)
+        rc, so, se = p.returncode, p.stdout, p.stderr
+    except subprocess.TimeoutExpired as e:
+        # a hang: keep the answers printed so far; the unanswered cases show up as "<no answer>"
+        so = e.stdout.decode() if isinstance(e.stdout, bytes) else (e.stdout or "")
+        rc, se = -9, "deadline of %ds exceeded" % timeout
+        so = so[:so.rfind("\n") + 1]
     res = {}
-    for l in p.stdout.splitlines():
+    for l in so.splitlines():
         i = l.find(" ")
         if i < 0:
             res[l] = ""
         else:
             res[l[:i]] = l[i + 1:]
-    return p.returncode, res, p.stderr
+    return rc, res, se
 
 
-def run_cases(cases, timeout=1500, want_release=True):
+def run_cases(cases, timeout=900, want_release=True):
     """cases: list of 'cmd args' strings.  Returns list of dicts {case, dev, rel, model, panic, ...}."""
-    lines = ["%d %s" % (i, c) for i, c in enumerate(cases)]
+    # a case starting with "!" is run on the implementation only (runtime facets: size doubling)
+    lines = ["%d %s" % (i, c.lstrip("!")) for i, c in enumerate(cases)]
+    mlines = ["%d %s" % (i, c) for i, c in enumerate(cases) if not c.startswith("!")]
     nsh = max(1, min(NPROC, len(lines) // 200 + 1))
     shards = [lines[k::nsh] for k in range(nsh)]
+    mshards = [mlines[k::nsh] for k in range(nsh)]
     jobs = []
     with ThreadPoolExecutor(max_workers=NPROC) as ex:
-        for s in shards:
+        for s, ms in zip(shards, mshards):
             jobs.append(("dev", ex.submit(run_binary, H_DEV, s, timeout)))
             if want_release:
                 jobs.append(("rel", ex.submit(run_binary, H_REL, s, timeout)))
-            jobs.append(("model", ex.submit(run_binary, MODELRUN, s, timeout)))
+            if ms:
+                jobs.append(("model", ex.submit(run_binary, MODELRUN, ms, timeout)))
         outs = {"dev": {}, "rel": {}, "model": {}}
         crashes = []
         for kind, j in jobs:
@@ -260,7 +271,7 @@ def run_cases(cases, timeout=1500, want_release=True):
             else:
                 r[kind] = "<no answer: process died>"
                 r[kind + "_panic"] = True
-        r["model"] = outs["model"].get(k, "<no answer: modelrun died>")
+        r["model"] = None if c.startswith("!") else outs["model"].get(k, "<no answer: modelrun died>")
         results.append(r)
     return results, crashes
 
